@@ -267,7 +267,7 @@ void __asan_on_error(void)
 const char *__asan_default_options(void)
 {
     return "halt_on_error=0:detect_leaks=0:allocator_may_return_null=1:abort_on_error=0:"
-           "max_malloc_fill_size=0:detect_stack_use_after_return=0:print_summary=0:handle_abort=0:handle_segv=0:suppress_equal_pcs=0";
+           "max_malloc_fill_size=0:detect_stack_use_after_return=0:print_summary=0:handle_abort=0:handle_segv=0:suppress_equal_pcs=0:max_allocation_size_mb=512";
 }
 #endif
 
